@@ -210,6 +210,7 @@ func (s *Service) SchedulePeriodicJob(ctx context.Context,
 					delete(s.jobs, name)
 				}
 				s.jobsMutex.Unlock()
+				servePendingRun(ctx, job, jobFunc)
 				finaliseJob(job)
 				monitorJobCancelled(class)
 				return
@@ -221,6 +222,7 @@ func (s *Service) SchedulePeriodicJob(ctx context.Context,
 					delete(s.jobs, name)
 				}
 				s.jobsMutex.Unlock()
+				servePendingRun(ctx, job, jobFunc)
 				finaliseJob(job)
 				monitorJobCancelled(class)
 				return
@@ -378,6 +380,27 @@ func (s *Service) CancelJobs(ctx context.Context, prefix string) {
 	for _, name := range names {
 		// It is possible that the job has been removed whist we were iterating, so use the non-erroring version of cancel.
 		s.CancelJobIfExists(ctx, name)
+	}
+}
+
+// servePendingRun runs a periodic job that is stopping if a run request claimed it before it left the jobs list:
+// the request has reported success, so the run must take place.
+func servePendingRun(ctx context.Context, job *job, jobFunc scheduler.JobFunc) {
+	for {
+		// A run request sets the flag and sends its signal under the state lock; if there is none the job
+		// is marked finalised under that same lock, so that a later request is refused rather than lost.
+		job.stateLock.Lock()
+		pending := job.active.Load()
+		if !pending {
+			job.finalised.Store(true)
+		}
+		job.stateLock.Unlock()
+		if !pending {
+			return
+		}
+		<-job.runCh
+		jobFunc(ctx)
+		job.active.Store(false)
 	}
 }
 
